@@ -90,7 +90,20 @@ var c12Bundle *mapBundle
 // c12ViaTofu: render through Tofu.Render (the convenience entry point) instead of Renderer.Execute.
 var c12ViaTofu bool
 
+// richWriter is the same writer with the optional methods that writers of the standard library have
+// (bufio, gzip, os.File, net connections): all of them succeed - only Write reports the failure.
+type richWriter struct{ w *faultWriter }
+
+func (r richWriter) Write(p []byte) (int, error)       { return r.w.Write(p) }
+func (r richWriter) WriteString(s string) (int, error) { return r.w.Write([]byte(s)) }
+func (r richWriter) Flush() error                      { return nil }
+func (r richWriter) Sync() error                       { return nil }
+func (r richWriter) Close() error                      { return nil }
+
 func renderTo(cb *compiled, c gen.ProgCase, w io.Writer) (err error, pn interface{}) {
+	if fw, isFault := w.(*faultWriter); isFault && (fw.failCall+fw.capacity)%2 == 0 {
+		w = richWriter{fw}
+	}
 	pn = catch(func() {
 		if c12ViaTofu {
 			err = cb.tofu.Render(w, c.Entry, toDataMap(c.Data))
